@@ -332,6 +332,9 @@ func runL2Script(script []c18Op) (trace string, maxLeaving int, oracleUpdates in
 				// the rest of the block executed ahead of time (optimistic execution, a proposal that is not
 				// the one that gets committed): end of block on the branch
 				_, _ = b.EndBlock()
+				// ... and the beginning of the next block
+				b.NextBlock(5 * time.Second)
+				_ = b.BeginBlock()
 			})
 		}
 		switch op.Kind {
